@@ -76,7 +76,7 @@ fn main() {
             ctx.extra.insert("sim_compile_secs".into(), (*progs.compile_secs.lock().unwrap()).into());
         }
         "C38" => {
-            ctx.rule = "corpus of 13 simulator programs (ordered/unordered/keyed batches, slices with snapshots, hooked top-level fold, two ticks, top-level and in-tick ordering observations, 3-member cluster relay over fail-stop TCP, quorum helper, atomic keyed counter, 3-member raft) x proptest decision tapes (0..4096 bytes; bolero's byte driver pads with zeros); each tape is replayed with CompiledSim::fuzz_repro + run_with_scheduler_and_logger twice in this process and (per program, batches of tapes) once in a freshly spawned process; decision log (colour off), outputs and verdict are compared. Non-trivial: the decision log has >=5 non-trivial decisions. Distinct: hash of (program, tape).".into();
+            ctx.rule = "corpus of 16 simulator programs (ordered/unordered/keyed batches, slices with snapshots, hooked top-level fold, two ticks, top-level and in-tick ordering observations (stream, keyed stream, merge_ordered, entries_partially_ordered), 3-member cluster relay over fail-stop TCP, quorum helper, atomic keyed counter, 3-member raft) x proptest decision tapes (0..4096 bytes; bolero's byte driver pads with zeros); each tape is replayed with CompiledSim::fuzz_repro + run_with_scheduler_and_logger twice in this process and (per program, batches of tapes) once in a freshly spawned process; decision log (colour off), outputs and verdict are compared. Non-trivial: the decision log has >=5 non-trivial decisions. Distinct: hash of (program, tape).".into();
             c38::run(&mut ctx);
         }
         "C39" => {
